@@ -88,7 +88,18 @@ def shape(chk, fn, name, lp):
     nexts = [p for p in lp["paths"] if p[1] == "next"]
     chk.ob("VN", anchor, len(nexts) == 1, "%d way(s) round the loop (exactly one expected)" % len(nexts), lp["where"], key="one-next")
     for conds, kind, val in lp["paths"]:
-        if kind == "next":
+        cd = lp.get("countdown")
+        if kind == "next" and cd is not None:
+            # counted without an index: `remaining` runs from N down to 0
+            L, ty = P("L%d" % cd), fn.local_ty(cd)
+            good = conds and conds[0] == (L, ty, ((1, sym.ty_range(ty)[1]),)) and all(loops.is_success_cond(c) for c in conds[1:])
+            chk.ob("R-ERR", anchor, bool(good), "the way round the loop requires I < N and the success of every decode step / inner loop on it (%d conditions)" % len(conds),
+                   lp["where"], key="next-conditions")
+            expect(chk, "VN", anchor, val.get(cd), binop("Sub", L, C(1, ty), ty), lp["where"], "index advances by one")
+        elif kind == "exit:normal" and cd is not None:
+            good = len(conds) == 1 and conds[0] == (P("L%d" % cd), fn.local_ty(cd), ((0, 0),))
+            chk.ob("VN", anchor, good, "the loop is left normally only when the index reaches the bound", lp["where"], key="normal-exit")
+        elif kind == "next":
             good = conds and loops.cont_cond(conds[0], lp["I"], lp["N"]) and all(loops.is_success_cond(c) for c in conds[1:])
             chk.ob("R-ERR", anchor, bool(good), "the way round the loop requires I < N and the success of every decode step / inner loop on it (%d conditions)" % len(conds),
                    lp["where"], key="next-conditions")
